@@ -102,9 +102,7 @@ static std::string run_knn(const Sx& c) {
   VectorVectorDouble data(nf);
   for (int j = 0; j < nf; j++) for (int i = 0; i < n; i++) data[j].push_back(pts[i][j].d());
   defineDefaultSpace(ESpaceType::RN, nf);
-  // pointer constructor (btree_init copies the rows).  The VectorVectorDouble constructor is avoided on purpose: it
-  // releases its temporary copy with free_2d_double(internal, n_features) although the copy has n_samples rows
-  // (invalid free when n_samples < n_features) and would make this harness crash erratically.
+  // pointer constructor (btree_init copies the rows)
   std::vector<std::vector<double>> rows(n, std::vector<double>(nf));
   std::vector<const double*> rp(n);
   for (int i = 0; i < n; i++) { for (int j = 0; j < nf; j++) rows[i][j] = pts[i][j].d(); rp[i] = rows[i].data(); }
